@@ -111,6 +111,11 @@ func cmdC15(seed uint64, tier, outdir string) {
 		if r.chance(1, 2) {
 			files = append(files, licFile{"notes.md", []byte("not a license")}, licFile{"Odd Name-1.0.header.txt", []byte("odd header license text granted under these software terms version")})
 		}
+		tiny := r.chance(2, 3)
+		if tiny {
+			// licenses shorter than the search-set granularity (1 and 2 tokens)
+			files = append(files, licFile{"Tiny-One.txt", []byte("unlicensed")}, licFile{"Tiny-Two.txt", []byte("public domain")})
+		}
 		paths := make([]string, len(files))
 		for j, f := range files {
 			paths[j] = f.name
@@ -146,6 +151,9 @@ func cmdC15(seed uint64, tier, outdir string) {
 				}
 			}
 			query := string(f.data)
+			if tiny && q == 0 {
+				query = "some code here\npublic domain\nzzqx wobble frobnicate\nunlicensed\nand more text follows"
+			}
 			if q < nq && r.chance(1, 2) {
 				f2 := files[r.intn(len(files))]
 				query = "some code here\n" + query + "\n\nand more\n" + string(f2.data)
@@ -193,6 +201,12 @@ func decorate(r *rng, s string, kind int) string {
 			col += len(w) + 1
 		}
 		return sb.String()
+	case 8: // everything on one line
+		return strings.Join(strings.Fields(s), " ")
+	case 9: // one line, upper case
+		return strings.ToUpper(strings.Join(strings.Fields(s), " "))
+	case 10: // one line inside a block comment
+		return "/* " + strings.Join(strings.Fields(s), " ") + " */"
 	case 6: // box comment with deep indentation
 		lines := strings.Split(s, "\n")
 		for i := range lines {
@@ -236,10 +250,10 @@ func cmdC16(seed uint64, tier, outdir string) {
 	}
 	inner := l.VerifInner()
 	nFiles := 16
-	variants := []int{-1, 0, 2, 3, 6, 7}
+	variants := []int{-1, 0, 2, 3, 6, 7, 8, 9}
 	if tier == "thorough" {
 		nFiles = len(all)
-		variants = []int{-1, 0, 1, 2, 3, 4, 5, 6, 7}
+		variants = []int{-1, 0, 1, 2, 3, 4, 5, 6, 7, 8, 9, 10}
 	}
 	perm := make([]int, len(all))
 	for i := range perm {
@@ -249,11 +263,24 @@ func cmdC16(seed uint64, tier, outdir string) {
 		j := r.intn(i + 1)
 		perm[i], perm[j] = perm[j], perm[i]
 	}
-	for _, fi := range perm[:nFiles] {
+	// files that open with a copyright line always take part (the ignorable-text removal works per line)
+	chosen := append([]int{}, perm[:nFiles]...)
+	if nFiles < len(all) {
+		for _, fi := range perm[nFiles:] {
+			if len(all[fi].data) > 9 && strings.EqualFold(string(all[fi].data[:9]), "copyright") {
+				chosen = append(chosen, fi)
+			}
+		}
+	}
+	for ci, fi := range chosen {
 		f := all[fi]
 		key := strings.TrimSuffix(f.name, ".txt")
 		canonical := strings.TrimSuffix(key, ".header")
-		for _, v := range variants {
+		vs := variants
+		if ci >= nFiles {
+			vs = []int{8, 9}
+		}
+		for _, v := range vs {
 			text := string(f.data)
 			if v >= 0 {
 				text = decorate(r, text, v)
